@@ -445,6 +445,12 @@ def rand_decl(rnd, depth=2, ctx="file"):
 
 # ------------------------------------------------------------------ statements
 
+# pragma texts: the directive's own keywords and punctuation inside the text, quotes, brackets, a trailing backslash
+PRAGMA_TEXTS = ["omp parallel for", "once", "pack(push, 1)", "", "weird $ @ ` text \\ here", "unroll(4)", "STDC FP_CONTRACT ON",
+                "GCC diagnostic ignored \"-Wunknown-pragmas\"", "message(\"unknown pragma ignored\")", "pragma", "pragma pragma x",
+                "line 5", "# pragma x", "define X ( { [", "omp critical } ) ]", "'q", "\"unterminated", "/* c */ // d", "tail \\"]
+
+
 class StmtGen:
     def __init__(self, rnd, expr_depth=2, pragmas=True, decls=True):
         self.rnd = rnd
@@ -522,8 +528,7 @@ class StmtGen:
         rnd = self.rnd
         if rnd.random() < 0.25:
             return M("pragmaop", lit='"%s"' % rnd.choice(["omp barrier", "GCC ivdep", "x y(z)"]))
-        return M("pragma", text=rnd.choice(["omp parallel for", "once", "pack(push, 1)", "", "weird $ @ ` text \\ here",
-                                           "unroll(4)", "STDC FP_CONTRACT ON"]))
+        return M("pragma", text=rnd.choice(PRAGMA_TEXTS))
 
     def items(self, d, in_switch, in_loop):
         rnd = self.rnd
